@@ -257,6 +257,27 @@ func (r *run) check() {
 	for _, ref := range sim.SortedKeys(rowsNow) {
 		addNeed(ref, "its row is still in the queue", r.uploadOpOf(ref))
 	}
+	// the source accepted the blob but the upload was not acknowledged: the
+	// client went away, the hook failed, or the process died
+	storedOnly := map[string]*upload{}
+	for _, u := range r.uploads {
+		ref := r.pool[u.B].Ref.String()
+		if u.Acked || !u.Stored {
+			continue
+		}
+		if _, ok := must[ref]; ok {
+			continue
+		}
+		how := "the upload then failed"
+		switch {
+		case u.Cancelled && u.Done:
+			how = "the client's context was cancelled right after"
+		case !u.Done:
+			how = "the process died before the upload returned"
+		}
+		addNeed(ref, fmt.Sprintf("the source store accepted it (upload op #%d, generation %d; no fault on that call; %s)", u.Op, u.Gen, how), u.Op)
+		storedOnly[ref] = u
+	}
 	out.Reached["upload-acked"] += acked
 	out.Reached["upload-not-acked"] += unacked
 	delivered := 0
@@ -303,6 +324,27 @@ func (r *run) check() {
 					if v != u && v.Gen == u.Gen && v.B == u.B && v.Start < u.Ret && (!v.Done || v.Ret > u.Start) {
 						cause = "dup-upload-acked-before-row-written"
 					}
+				}
+			}
+		}
+		if u := storedOnly[ref]; u != nil {
+			if queueFaults {
+				// the hook may have failed on an injected queue error: the
+				// client was told, it is its turn
+				out.Reached["qf:stored-unacknowledged-not-delivered"]++
+				continue
+			}
+			if cause == "never-queued" {
+				if !u.Done {
+					cause = "source-stored-process-died-before-enqueue"
+					if (r.cfg.FullSync || r.cfg.Validate) && len(r.p.Faults) == 0 {
+						// a start-up pass over the whole source ran
+						// undisturbed after the restart and must have
+						// found the blob
+						cause += "+full-pass-did-not-repair"
+					}
+				} else {
+					cause = "source-stored-never-queued"
 				}
 			}
 		}
